@@ -1,10 +1,11 @@
 package govc
 
 import (
-	"strings"
-	"sort"
 	"fmt"
+	"go/ast"
 	"go/types"
+	"sort"
+	"strings"
 )
 
 // State is one symbolic path state.
@@ -16,8 +17,9 @@ type State struct {
 	pc     []*Term
 	pcset  map[string]bool
 	defers []*deferred
-	quiet  int  // >0: loads do not add range assumptions (spec evaluation under binders)
-	dead   bool // path condition became syntactically false
+	quiet  int                     // >0: loads do not add range assumptions (spec evaluation under binders)
+	dead   bool                    // path condition became syntactically false
+	pre    map[*ast.CallExpr]Value // values of nested calls already executed in place for the current statement
 }
 
 func newState() *State {
@@ -46,6 +48,12 @@ func (s *State) clone() *State {
 	}
 	n.pc = append([]*Term{}, s.pc...)
 	n.defers = append([]*deferred{}, s.defers...)
+	if len(s.pre) > 0 {
+		n.pre = make(map[*ast.CallExpr]Value, len(s.pre))
+		for k, v := range s.pre {
+			n.pre[k] = v
+		}
+	}
 	return n
 }
 
@@ -331,9 +339,9 @@ func (e *Exec) assumeWellTyped(st *State, v Value) {
 	}
 }
 
-func strLen(s *Term) *Term         { return mkApp("slen", SInt, s) }
-func strByte(s, i *Term) *Term     { return mkApp("sbyte", SInt, s, i) }
-func dynType(ref *Term) *Term      { return mkApp("dyntype", SInt, ref) }
+func strLen(s *Term) *Term          { return mkApp("slen", SInt, s) }
+func strByte(s, i *Term) *Term      { return mkApp("sbyte", SInt, s, i) }
+func dynType(ref *Term) *Term       { return mkApp("dyntype", SInt, ref) }
 func typeIdTerm(t types.Type) *Term { return mkApp("type!"+typeKey(t), SInt) }
 
 // zeroValue builds the zero value of t. Arrays get a fresh zero-filled backing array.
